@@ -167,6 +167,43 @@ Theorem C01_same_regions : forall fp o sizes inp bs1 bs2,
 Proof. exact bw_same_regions. Qed.
 Print Assumptions C01_same_regions.
 
+(* ---- the same, stated on the input itself (Proofs/BigWigFileInput.v) ----
+   vals_of inp c   = the input's values for chromosome c, in input order;
+   first_app names = the distinct names in first-appearance order;
+   "one run per chromosome" is either assumed or, when the writer's chromosome-order check is on
+   (o_sort_all, the default), implied by the fact that the input was accepted;
+   input_fields_ok = input_ok without that clause. *)
+From BT Require Import Proofs.BigWigFileInput.
+
+Theorem C01_chrom_table_on_input : forall fp o sizes inp bs,
+  opts_ok o -> input_fields_ok sizes inp -> Nlen bs < U64 ->
+  bw_write fp o sizes inp = Ok bs \/ bw_write_multipass fp o sizes inp = Ok bs ->
+  NoDup (map fst (runs inp)) \/ o_sort_all o = true ->
+  forall i, read_info bs = Ok i ->
+  i_chroms i = map (fun ci => {| ci_name := fst ci; ci_id := snd ci;
+                                 ci_len := match lookup (fst ci) sizes with Some l => l | None => 0 end |})
+                   (number 0 (first_app (map fst inp))).
+Proof. exact on_input_chroms. Qed.
+Print Assumptions C01_chrom_table_on_input.
+
+Theorem C01_query_on_input : forall fp o sizes inp bs,
+  opts_ok o -> input_fields_ok sizes inp -> Nlen bs < U64 ->
+  bw_write fp o sizes inp = Ok bs \/ bw_write_multipass fp o sizes inp = Ok bs ->
+  NoDup (map fst (runs inp)) \/ o_sort_all o = true ->
+  forall i infl c s e, read_info bs = Ok i -> In c (map fst inp) ->
+  bw_interval infl bs i c s e = Ok (clip_filter s e (vals_of inp c)).
+Proof. exact on_input_query. Qed.
+Print Assumptions C01_query_on_input.
+
+Theorem C01_roundtrip_on_input : forall fp o sizes inp bs,
+  opts_ok o -> input_fields_ok sizes inp -> Nlen bs < U64 ->
+  bw_write fp o sizes inp = Ok bs \/ bw_write_multipass fp o sizes inp = Ok bs ->
+  NoDup (map fst (runs inp)) \/ o_sort_all o = true ->
+  forall i infl c len, read_info bs = Ok i -> In c (map fst inp) -> lookup c sizes = Some len ->
+  bw_interval infl bs i c 0 len = Ok (filter (fun v => negb (boundary_zero len v)) (vals_of inp c)).
+Proof. exact on_input_roundtrip. Qed.
+Print Assumptions C01_roundtrip_on_input.
+
 (* K1: a zero-length value at position 0 is accepted by the writer and not read back *)
 Definition k1_opts : opts :=
   {| o_compress := false; o_ips := 2; o_bs := 2; o_izoom := 10; o_maxzooms := 2; o_manual := None; o_sort_all := true |}.
